@@ -55,18 +55,71 @@ def check_sanitised(rep: Report, rid: str, prog: Program, need_cap: bool = True)
         else:
             if raw is not None and contains(final, raw) and info["finite_lit"] != [True]:
                 problem = "the strategy's raw value reaches the delay without a dominating math.isfinite(...) test (non-finite values must become 0)"
+            # bounds from the term (min / max) and from the comparisons taken on this path (the same clamp spelled as
+            # `if not x > 0.0: x = 0.0` / `if remaining < x: x = remaining`)
+            def cond_truth(a_, b_):
+                """truth of a_ < b_ on this path, None if not tested"""
+                for at, pol, _ in p.conds:
+                    if at == ("cmp", "<", a_, b_):
+                        return pol
+                return None
+
+            zeros = [("const", 0.0), ("const", 0)]
+            if rem is None:
+                rem = next((x for e in p.events if e.kind == "lstore" for x in subterms(e.value) if is_remaining_s(x)), None)
+                rem = rem or next((x for at, _pol, _n in p.conds for x in subterms(at) if is_remaining_s(x)), None)
             lc = lower_const(final, nonneg=[rem] if (rem is not None and info["time_left"]) else [])
-            if problem is None and (lc is None or lc < 0):
+            nonneg_by_cond = any(cond_truth(z, final) is True or cond_truth(final, z) is False for z in zeros)
+            if problem is None and (lc is None or lc < 0) and not nonneg_by_cond:
                 problem = f"the delay {show(final)} is not bounded below by 0 (negative strategy outputs must become 0)"
             if problem is None and need_cap:
-                if rem is None or rem not in upper_bounds(final):
+                capped = rem is not None and (rem in upper_bounds(final) or final == rem or cond_truth(rem, final) is False or cond_truth(final, rem) is True or (final in zeros and info["time_left"]))
+                if not capped:
                     problem = f"the delay {show(final)} is not capped by the remaining time (deadline - elapsed()).total_seconds()"
                 elif not info["time_left"]:
                     problem = "the remaining time is not known to be > 0 on this path (the `remaining_s <= 0` stop does not dominate)"
             if problem is None and raw is not None and not contains(final, raw) and info["finite_lit"] == [True]:
-                problem = "a finite strategy output is discarded"
+                justified = (final in zeros and any(cond_truth(z, raw) is False or cond_truth(raw, z) is True for z in zeros)) or (rem is not None and final == rem and (cond_truth(rem, raw) is True or cond_truth(raw, rem) is False)) or (rem is not None and final == rem and any(cond_truth(rem, z) is True for z in zeros))
+                if not justified:
+                    problem = "a finite strategy output is discarded"
         if problem:
             rep.fail(rid, f"_handle_failure|delay|{problem[:50]}", f"_handle_failure (retry path): {problem}", where=path_where(prog, HANDLE_FAILURE, p), function=HANDLE_FAILURE, path=p.describe())
+        else:
+            rep.ok(rid)
+
+
+def strategy_call_provenance(rep: Report, rid: str, prog: Program) -> None:
+    """on every retry path the selected strategy is applied to a BackoffContext built from the true attempt number, the
+    classifier's classification (retry_after_s included), the previous delay, the true remaining time and the cause"""
+    for p, info in retry_rows(prog):
+        sc = info["strategy_calls"][0] if info["strategy_calls"] else None
+        rep.instance(rid, "retry-path|strategy-call")
+        problem = None
+        if sc is None:
+            problem = "no strategy call on a retry path"
+        else:
+            if not is_strategy_sel(sc.callee):
+                problem = f"the callable invoked is {show(sc.callee)}, not the result of _select_strategy"
+            else:
+                sel = [e for e in p.calls() if e.is_repo("_select_strategy")]
+                if len(sel) != 1 or sel[0].args != [KLASS] or sel[0].recv != attr(SELF, "policy"):
+                    problem = f"_select_strategy is not called as self.policy._select_strategy(classification.klass): {[show(a) for e in sel for a in e.args]}"
+            ctx = sc.args[0] if len(sc.args) == 1 else None
+            bc = [e for e in p.calls(pure=None) if e.is_repo(":_build_backoff_context") or e.is_ctor("BackoffContext")]
+            if problem is None and (ctx is None or not bc or bc[0].result != ctx):
+                problem = f"the strategy receives {show(ctx)}, not the BackoffContext built for this failure"
+            if problem is None:
+                kw = bc[0].kwargs
+                want = {"attempt": ("param", "attempt"), "classification": ("param", "classification"), "prev_sleep_s": attr(SELF, "prev_sleep"), "cause": ("param", "cause")}
+                bad = {k: show(kw.get(k)) for k, v in want.items() if kw.get(k) != v}
+                if not is_remaining_s(kw.get("remaining_s")):
+                    bad["remaining_s"] = show(kw.get("remaining_s"))
+                if bad:
+                    problem = f"BackoffContext fields differ from their sources: {bad}"
+            if problem is None and info["ctx_arg"] != ctx:
+                problem = "the decision does not carry the context the strategy saw"
+        if problem:
+            rep.fail(rid, f"_handle_failure|strategy-call|{problem[:45]}", f"_handle_failure (retry path): {problem}", where=path_where(prog, HANDLE_FAILURE, p), function=HANDLE_FAILURE, path=p.describe())
         else:
             rep.ok(rid)
 
@@ -122,6 +175,13 @@ def run(rep: Report, prog: Program, tier: str) -> None:
             if isinstance(tgt, ast.Attribute) and tgt.attr in norm_ok and n.value is not None:
                 calls = [c for c in ast.walk(n.value) if isinstance(c, ast.Call) and isinstance(c.func, ast.Name) and c.func.id == "_normalize_strategy"]
                 norm_ok[tgt.attr] = len(calls) == 1
+                if not calls and isinstance(n.value, ast.Name):
+                    # a table filled item by item in a loop: every item stored must be a normalised strategy
+                    loc = n.value.id
+                    fills = [s2 for s2 in prog._own_nodes(init.node) if isinstance(s2, ast.Assign) and len(s2.targets) == 1 and isinstance(s2.targets[0], ast.Subscript) and isinstance(s2.targets[0].value, ast.Name) and s2.targets[0].value.id == loc]
+                    inits = [s2 for s2 in prog._own_nodes(init.node) if isinstance(s2, (ast.Assign, ast.AnnAssign)) and isinstance((s2.targets[0] if isinstance(s2, ast.Assign) else s2.target), ast.Name) and (s2.targets[0] if isinstance(s2, ast.Assign) else s2.target).id == loc]
+                    empty = len(inits) == 1 and inits[0].value is not None and ((isinstance(inits[0].value, ast.Dict) and not inits[0].value.keys) or (isinstance(inits[0].value, ast.Call) and isinstance(inits[0].value.func, ast.Name) and inits[0].value.func.id == "dict" and not inits[0].value.args))
+                    norm_ok[tgt.attr] = bool(fills) and empty and all(len([c for c in ast.walk(s2.value) if isinstance(c, ast.Call) and isinstance(c.func, ast.Name) and c.func.id == "_normalize_strategy"]) == 1 for s2 in fills)
     for k, v in norm_ok.items():
         rep.instance("R5.1", f"normalised|{k}")
         if v:
@@ -140,37 +200,7 @@ def run(rep: Report, prog: Program, tier: str) -> None:
             rep.fail("R5.2", f"_handle_failure|strategy-calls={o.n_strategy}|{o.decision}", f"_handle_failure: strategy called {o.n_strategy} times on a `{o.decision}` path", where=path_where(prog, HANDLE_FAILURE, p), function=HANDLE_FAILURE, path=p.describe())
         else:
             rep.ok("R5.2")
-    for p, info in retry_rows(prog):
-        sc = info["strategy_calls"][0] if info["strategy_calls"] else None
-        rep.instance("R5.2", "retry-path|strategy-call")
-        problem = None
-        if sc is None:
-            problem = "no strategy call on a retry path"
-        else:
-            if not is_strategy_sel(sc.callee):
-                problem = f"the callable invoked is {show(sc.callee)}, not the result of _select_strategy"
-            else:
-                sel = [e for e in p.calls() if e.is_repo("_select_strategy")]
-                if len(sel) != 1 or sel[0].args != [KLASS] or sel[0].recv != attr(SELF, "policy"):
-                    problem = f"_select_strategy is not called as self.policy._select_strategy(classification.klass): {[show(a) for e in sel for a in e.args]}"
-            ctx = sc.args[0] if len(sc.args) == 1 else None
-            bc = [e for e in p.calls(pure=None) if e.is_repo(":_build_backoff_context") or e.is_ctor("BackoffContext")]
-            if problem is None and (ctx is None or not bc or bc[0].result != ctx):
-                problem = f"the strategy receives {show(ctx)}, not the BackoffContext built for this failure"
-            if problem is None:
-                kw = bc[0].kwargs
-                want = {"attempt": ("param", "attempt"), "classification": ("param", "classification"), "prev_sleep_s": attr(SELF, "prev_sleep"), "cause": ("param", "cause")}
-                bad = {k: show(kw.get(k)) for k, v in want.items() if kw.get(k) != v}
-                if not is_remaining_s(kw.get("remaining_s")):
-                    bad["remaining_s"] = show(kw.get("remaining_s"))
-                if bad:
-                    problem = f"BackoffContext fields differ from their sources: {bad}"
-            if problem is None and info["ctx_arg"] != ctx:
-                problem = "the decision does not carry the context the strategy saw"
-        if problem:
-            rep.fail("R5.2", f"_handle_failure|strategy-call|{problem[:45]}", f"_handle_failure (retry path): {problem}", where=path_where(prog, HANDLE_FAILURE, p), function=HANDLE_FAILURE, path=p.describe())
-        else:
-            rep.ok("R5.2")
+    strategy_call_provenance(rep, "R5.2", prog)
     bf = prog.func("redress.policy.state:_build_backoff_context")
     for p in engine(prog).paths(bf):
         d = ctor_args(p.exit[1], "BackoffContext", []) if p.exit[0] == "return" else None
@@ -228,6 +258,8 @@ def run(rep: Report, prog: Program, tier: str) -> None:
     for n in prog._own_nodes(nf.node):
         if isinstance(n, ast.Assign) and len(n.targets) == 1 and isinstance(n.targets[0], ast.Name):
             assigns.setdefault(n.targets[0].id, []).append(n.value)
+        elif isinstance(n, ast.AnnAssign) and isinstance(n.target, ast.Name) and n.value is not None:
+            assigns.setdefault(n.target.id, []).append(n.value)
     POS = {"POSITIONAL_ONLY", "POSITIONAL_OR_KEYWORD"}
     ALLK = POS | {"KEYWORD_ONLY", "VAR_POSITIONAL", "VAR_KEYWORD"}
 
@@ -239,7 +271,24 @@ def run(rep: Report, prog: Program, tier: str) -> None:
             vals = assigns.get(node.id, [])
             if len(vals) != 1:
                 raise AnalysisError(f"_normalize_strategy: `{node.id}` is not bound exactly once")
-            return descriptor(vals[0], depth + 1)
+            v0 = vals[0]
+            if (isinstance(v0, ast.List) and not v0.elts) or (isinstance(v0, ast.Call) and isinstance(v0.func, ast.Name) and v0.func.id == "list" and not v0.args):
+                # a list filled by `for p in <params>: if <filter>: lst.append(p)` = the comprehension written as a loop
+                loops = [f for f in ast.walk(nf.node) if isinstance(f, ast.For) and any(isinstance(c, ast.Call) and isinstance(c.func, ast.Attribute) and c.func.attr == "append" and isinstance(c.func.value, ast.Name) and c.func.value.id == node.id for c in ast.walk(f))]
+                if len(loops) != 1 or not isinstance(loops[0].target, ast.Name) or loops[0].orelse:
+                    raise AnalysisError(f"_normalize_strategy: cannot decode how `{node.id}` is filled")
+                lp = loops[0]
+                tests: list[ast.expr] = []
+                body = lp.body
+                while len(body) == 1 and isinstance(body[0], ast.If) and not body[0].orelse:
+                    tests.append(body[0].test)
+                    body = body[0].body
+                ok_app = len(body) == 1 and isinstance(body[0], ast.Expr) and isinstance(body[0].value, ast.Call) and isinstance(body[0].value.func, ast.Attribute) and body[0].value.func.attr == "append" and len(body[0].value.args) == 1 and isinstance(body[0].value.args[0], ast.Name) and body[0].value.args[0].id == lp.target.id
+                if not ok_app:
+                    raise AnalysisError(f"_normalize_strategy: cannot decode how `{node.id}` is filled")
+                comp = ast.ListComp(elt=ast.Name(id=lp.target.id, ctx=ast.Load()), generators=[ast.comprehension(target=lp.target, iter=lp.iter, ifs=tests, is_async=0)])
+                return descriptor(comp, depth + 1)
+            return descriptor(v0, depth + 1)
         if isinstance(node, ast.Call) and isinstance(node.func, ast.Name) and node.func.id in ("list", "tuple") and len(node.args) == 1:
             return descriptor(node.args[0], depth + 1)
         if isinstance(node, ast.Call) and isinstance(node.func, ast.Attribute) and node.func.attr == "values" and isinstance(node.func.value, ast.Attribute) and node.func.value.attr == "parameters":
@@ -306,24 +355,48 @@ def run(rep: Report, prog: Program, tier: str) -> None:
                 tot += vk
             return tot
 
-        def leaf(t: Any) -> Any:
-            if t[0] == "comp" and t[1] in comps:
-                return ("p",) * count(descriptor(comps[t[1]]))
-            if t[0] == "pure" and t[1] == "len" and len(t[2]) == 1:
-                from ..paths import evaluate
+        loop_vars = {f.target.id for f in ast.walk(nf.node) if isinstance(f, ast.For) and isinstance(f.target, ast.Name)}
 
-                return len(evaluate(t[2][0], leaf))
-            raise CannotEval()
+        def ast_truth(c: ast.expr) -> bool | None:
+            """truth of a branch condition of _normalize_strategy on this signature shape; None = a test inside a
+            filter loop (about one parameter), which the decoded parameter lists already account for"""
+            if any(isinstance(x, ast.Name) and x.id in loop_vars for x in ast.walk(c)):
+                return None
+            if isinstance(c, ast.UnaryOp) and isinstance(c.op, ast.Not):
+                v = ast_truth(c.operand)
+                return None if v is None else (not v)
+            if isinstance(c, (ast.Name, ast.ListComp)):
+                return count(descriptor(c)) > 0
+            if isinstance(c, ast.Compare) and len(c.ops) == 1:
+                def num(x: ast.expr) -> int:
+                    if isinstance(x, ast.Constant) and isinstance(x.value, int):
+                        return x.value
+                    if isinstance(x, ast.Call) and isinstance(x.func, ast.Name) and x.func.id == "len" and len(x.args) == 1:
+                        return count(descriptor(x.args[0]))
+                    raise AnalysisError(f"_normalize_strategy: condition `{ast.unparse(c)}` is not a test on the decoded parameter lists")
+                l, r = num(c.left), num(c.comparators[0])
+                op = c.ops[0]
+                table = {ast.Eq: l == r, ast.NotEq: l != r, ast.Lt: l < r, ast.LtE: l <= r, ast.Gt: l > r, ast.GtE: l >= r}
+                if type(op) in table:
+                    return table[type(op)]
+            raise AnalysisError(f"_normalize_strategy: condition `{ast.unparse(c)}` is not a test on the decoded parameter lists")
 
         feas = []
         for p in npaths:
+            if p.exit[0] == "loop":
+                continue
             ok = True
-            for a, pol, _ in p.conds:
-                try:
-                    val = bool(leaf(a)) if a[0] == "comp" else truth(a, leaf)
-                except CannotEval:
-                    raise AnalysisError(f"_normalize_strategy: condition `{show(a)}` is not a test on the decoded parameter lists")
-                if val != pol:
+            for it_ in p.items:
+                if it_[0] != "cond":
+                    continue
+                cnode = it_[3]
+                v = ast_truth(cnode.info["cond"])
+                if v is None:
+                    continue
+                taken = it_[6] if len(it_) > 6 else None  # the branch taken on the source condition
+                if taken is None:
+                    continue
+                if v != taken:
                     ok = False
                     break
             if ok:
